@@ -174,9 +174,14 @@ impl EmmyLuaAnalysis {
                 }
             }
         }
-        self.compilation
-            .remove_index(removed_files.into_iter().collect());
-        let updated_files: Vec<FileId> = updated_files.into_iter().collect();
+        // The sets only de-duplicate: analyse in file-id order (the order `reindex` uses), not
+        // in the iteration order of a randomly seeded hash set, so that the results of a batch
+        // update do not depend on the hash seed of the process.
+        let mut removed_files: Vec<FileId> = removed_files.into_iter().collect();
+        removed_files.sort();
+        self.compilation.remove_index(removed_files);
+        let mut updated_files: Vec<FileId> = updated_files.into_iter().collect();
+        updated_files.sort();
         self.compilation.update_index(updated_files.clone());
         updated_files
     }
